@@ -125,6 +125,9 @@ func IntAdd(a, b *Term) *Term {
 	return App("+", SInt, a, b)
 }
 func IntCmp(op string, a, b *Term) *Term {
+	if r := orderedCmp(op, a, b); r != nil {
+		return r
+	}
 	if a.IntV != nil && b.IntV != nil {
 		c := a.IntV.Cmp(b.IntV)
 		switch op {
